@@ -171,6 +171,20 @@ def make_workload(seed, i):
             if f2:
                 files, _ = f2, what.append(d)
         desc["invalidations"] = what
+        fl = rng.fork("flood")
+        if fl.chance(0.2):
+            # a package with more than a hundred errors (a model converted by a script that kept another language's naming
+            # conventions and OR-ed masks together): dozens of badly cased field names, and two enumerations in which a dozen
+            # values occur twice each
+            mf_ = E.model_files(files, "/w/pkg")
+            if mf_:
+                n_ = fl.randint(80, 99)
+                text = "\nZqFloodHeader: !record\n  fields:\n" + "".join("    user_param_%d: int\n" % k_ for k_ in range(n_))
+                for nm_, base_ in (("ZqFloodMask", "!flags"), ("ZqFloodCode", "!enum")):
+                    text += "\n%s: %s\n  base: uint64\n  values:\n" % (nm_, base_) + "".join("    coil%d: %d\n    receiver%d: %d\n" % (k_, 1 << k_, k_, 1 << k_) for k_ in range(fl.randint(8, 16)))
+                files = dict(files)
+                files[mf_[0]] = files[mf_[0]] + text
+                desc["more_than_a_hundred_errors"] = n_
     # command-line overrides of manifest keys (--config key=value): some that exist, and for some cases several that do not
     ar = rng.fork("args")
     if ar.chance(0.3):
@@ -463,6 +477,7 @@ def main():
             totals["cases_also_run_with_verbose"] += stats.get("verbose_run", 0)
             totals["cases_with_config_overrides"] += 1 if d.get("args") else 0
             totals["cases_with_several_unknown_config_keys"] += 1 if d.get("unknown_config_keys") else 0
+            totals["cases_with_more_than_a_hundred_errors"] = totals.get("cases_with_more_than_a_hundred_errors", 0) + (1 if d.get("more_than_a_hundred_errors") else 0)
             totals["cases_with_a_schema_text_beyond_64KiB"] = totals.get("cases_with_a_schema_text_beyond_64KiB", 0) + (1 if d.get("schema_text_beyond_64KiB") else 0)
             totals["cases_in_which_the_tool_ran_several_goroutines"] += 1 if stats.get("goroutines", 0) > 1 else 0
             totals["crash_points"] += stats.get("crash_points", 0)
